@@ -639,7 +639,9 @@ def gen_cache_ops(rng):
                 L = j0 + 7
             rect = [lat_of(T + 2), lon_of(L), lat_of(T), lon_of(L + 2)]
             ops.append(["elev", rect])
-    return {"kind": "cache", "ops": ops, "via_env": rng.random() < 0.5}
+    via_env = rng.random() < 0.5
+    return {"kind": "cache", "ops": ops, "via_env": via_env, "xdg_also": via_env and rng.random() < 0.6,
+            "concurrent": rng.random() < 0.5}
 
 
 def check_cache(rec, case):
@@ -652,6 +654,7 @@ def check_cache(rec, case):
     saved_path = topo._data_path
     saved_dl = SRTM30.__dict__["download_tile"]
     saved_env = os.environ.get("TYPHON_DATA_PATH")
+    saved_xdg = os.environ.get("XDG_CACHE_HOME")
     downloads = []
     keys = []
 
@@ -663,6 +666,10 @@ def check_cache(rec, case):
             os.environ["TYPHON_DATA_PATH"] = tmp
             topo._data_path = None
             cache_dir = os.path.join(tmp, "topography")
+            if case.get("xdg_also"):
+                # documented: TYPHON_DATA_PATH decides; XDG_CACHE_HOME only counts when it is not set
+                os.environ["XDG_CACHE_HOME"] = os.path.join(tmp, "xdg-cache")
+                rec.count("cache.both_environment_variables")
         else:
             topo._data_path = tmp
             cache_dir = tmp
@@ -762,6 +769,17 @@ def check_cache(rec, case):
             if on_disk != present and not keys:
                 viol("srtm-cache-directory", {"step": step, "op": op, "on_disk": sorted(on_disk),
                                               "model": sorted(present)})
+        if not keys and len(present) >= 2 and case.get("concurrent"):
+            # two tiles requested from two threads at once (vt/monitors/concurrency.py): each caller gets
+            # its own tile
+            from vt.monitors import concurrency
+            two = sorted(present)[:2]
+            verdict, detail = concurrency.concurrent_check(
+                [(SRTM30.get_tile, (nme,), {}) for nme in two], threads=2, rounds=2)
+            rec.count("cache.concurrent_" + verdict.replace("/", ""))
+            if verdict == "race":
+                viol("srtm-tile-format", dict(detail, why="tiles requested from two threads at once",
+                                              tiles=two))
         if not keys and hits and misses:
             rec.nontriv(["cache", bool(case.get("via_env")), min(hits, 3), min(misses, 3)],
                         case["ops"])
@@ -774,6 +792,10 @@ def check_cache(rec, case):
             os.environ.pop("TYPHON_DATA_PATH", None)
         else:
             os.environ["TYPHON_DATA_PATH"] = saved_env
+        if saved_xdg is None:
+            os.environ.pop("XDG_CACHE_HOME", None)
+        else:
+            os.environ["XDG_CACHE_HOME"] = saved_xdg
         shutil.rmtree(tmp, ignore_errors=True)
     return keys
 
